@@ -79,7 +79,7 @@ Definition kind_of (i : body_in) : body_kind :=
   else match bi_payload i with
        | PNil => KNone
        | PValue => KValue
-       | PReader _ | PReadCloser _ => KReader
+       | PReader _ | PReadCloser _ | PBuffer _ => KReader
        end.
 
 (* the answers an auth writer got from GetBody are the bytes sent, all of them. An answer is recorded as
